@@ -57,11 +57,13 @@ FLOORS = {
               'printer:Join': 50, 'printer:PositiveJoin': 50, 'printer:NamedList': 100, 'printer:OverrideList': 50,
               'feat:long_keywords': 60, 'feat:assoc_join': 120, 'feat:assoc_join:left': 55,
               'feat:assoc_join:right': 55, 'feat:assoc_join_multiline': 25, 'printer:LeftJoin': 55,
-              'printer:RightJoin': 55},
+              'printer:RightJoin': 55, 'feat:empty_constant': 60, 'feat:numeric_first_param': 45,
+              'feat:nonfinite_float': 4},
     'thorough': {'programs': 15000, 'recompiled': 12000, 'both_accepted': 30000, 'route:text': 2000,
                  'route:object': 9000, 'route:json': 1200, 'route:g2e': 600, 'rail_tracks_checked': 45000,
                  'hazard_free_programs': 10000, 'feat:long_keywords': 700, 'feat:assoc_join': 1300,
-                 'feat:assoc_join_multiline': 300, 'printer:LeftJoin': 600, 'printer:RightJoin': 600},
+                 'feat:assoc_join_multiline': 300, 'printer:LeftJoin': 600, 'printer:RightJoin': 600,
+                 'feat:empty_constant': 600, 'feat:numeric_first_param': 450, 'feat:nonfinite_float': 50},
 }
 N = {'quick': 2080, 'thorough': 20800}
 INPUTS = {'quick': 6, 'thorough': 8}
